@@ -201,7 +201,17 @@ def classify(fn: Func, loop: ast.While):
                     isinstance(k, ast.Call) and isinstance(k.func, ast.Attribute) and k.func.attr in ("remove", "pop", "popleft", "clear")
                     and norm(k.func.value) == v for k in ast.walk(a))
             if isinstance(base, ast.Name) and _every_back_path_passes(fn, loop, shrinks):
-                return ("worklist", f"{v} loses an element on every path that loops")
+                grows = [k for st in loop.body for k in ast.walk(st)
+                         if (isinstance(k, ast.Call) and isinstance(k.func, ast.Attribute) and k.func.attr in ("append", "extend", "insert", "appendleft")
+                             and norm(k.func.value) == v) or (isinstance(k, ast.AugAssign) and norm(k.target) == v)]
+                if not grows:
+                    return ("worklist", f"{v} loses an element on every path that loops")
+                vd = _visited_discipline(fn, loop, v)
+                if vd[0]:
+                    return ("worklist", f"{v} loses an element on every iteration and gains only successors of elements not seen before ({vd[1]})")
+                tried.append(f"{v} loses an element per iteration but is also extended, and no visited test bounds the re-insertions: {vd[1]}")
+                loop._unbounded_worklist = (v, vd[1])
+                continue
             tried.append(f"{v}: neither a parent-chain walk nor a shrinking work list on every path")
         # ---- string prefix
         if isinstance(c, ast.Call) and isinstance(c.func, ast.Attribute) and c.func.attr == "startswith" and isinstance(c.func.value, ast.Name):
@@ -227,6 +237,65 @@ def classify(fn: Func, loop: ast.While):
     return (None, "; ".join(tried) or "condition shape not recognised")
 
 
+def _visited_discipline(fn: Func, loop, v: str):
+    """A work list that is popped and extended terminates on cyclic input only if every element is expanded at most once:
+    a set S with `S.add(K)` on the way, where K is computed from the popped element, and a test of the SAME key against S that
+    skips the iteration (`if K in S: continue`) before anything is pushed -- or a `not in S` guard with the same key shape on
+    every push.  Returns (ok, explanation)."""
+    import copy
+    popped = None
+    for st in loop.body:
+        for x in ast.walk(st):
+            if isinstance(x, ast.Assign) and isinstance(x.value, ast.Call) and isinstance(x.value.func, ast.Attribute) \
+                    and x.value.func.attr in ("pop", "popleft") and norm(x.value.func.value) == v and isinstance(x.targets[0], ast.Name):
+                popped = x.targets[0].id
+    if popped is None:
+        return (False, "the popped element is not bound to a name")
+    assigns = {}
+    for st in loop.body:
+        for x in ast.walk(st):
+            if isinstance(x, ast.Assign) and isinstance(x.targets[0], ast.Name):
+                assigns.setdefault(x.targets[0].id, []).append(x.value)
+
+    def shape(e, var):
+        """text of e with `var` replaced by X, names resolved one level"""
+        if isinstance(e, ast.Name) and e.id != var and len(assigns.get(e.id, [])) == 1:
+            e = assigns[e.id][0]
+        return norm(e).replace(var, "X") if var else norm(e)
+    adds = [x for st in loop.body for x in ast.walk(st) if isinstance(x, ast.Call) and isinstance(x.func, ast.Attribute)
+            and x.func.attr == "add" and len(x.args) == 1]
+    for a in adds:
+        S = norm(a.func.value)
+        kshape = shape(a.args[0], popped)
+        if "X" not in kshape:
+            continue
+        # (1) skip test on the popped element with the same key
+        for i in [y for st in loop.body for y in ast.walk(st) if isinstance(y, ast.If)]:
+            t = i.test
+            if isinstance(t, ast.Compare) and len(t.ops) == 1 and isinstance(t.ops[0], ast.In) and norm(t.comparators[0]) == S \
+                    and shape(t.left, popped) == kshape and any(isinstance(z, ast.Continue) for z in i.body) and i.lineno < a.lineno:
+                return (True, f"visited set {S}, key {kshape}")
+        # (2) guard on every push with the same key shape
+        pushes = [k for st in loop.body for k in ast.walk(st) if isinstance(k, ast.Call) and isinstance(k.func, ast.Attribute)
+                  and k.func.attr in ("append", "extend", "insert", "appendleft")]
+        guards = [y for st in loop.body for y in ast.walk(st) if isinstance(y, ast.If) and isinstance(y.test, (ast.Compare, ast.BoolOp))]
+        for gnode in guards:
+            for cmp_ in ast.walk(gnode.test):
+                if isinstance(cmp_, ast.Compare) and len(cmp_.ops) == 1 and isinstance(cmp_.ops[0], ast.NotIn) and norm(cmp_.comparators[0]) == S:
+                    var = cmp_.left.id if isinstance(cmp_.left, ast.Name) else None
+                    got = shape(cmp_.left, var) if var else norm(cmp_.left)
+                    inner = norm(cmp_.left)
+                    # the tested expression must be the key of the candidate, e.g. `pred.fullId not in S` for key `X.fullId`
+                    names = [n_.id for n_ in ast.walk(cmp_.left) if isinstance(n_, ast.Name)]
+                    cand = names[0] if names else None
+                    if cand and norm(cmp_.left).replace(cand, "X") == kshape:
+                        return (True, f"pushes guarded by `{inner} not in {S}`, key {kshape}")
+                    return (False, f"the visited set {S} holds {kshape} but the push guard tests `{inner}`, which is never a member: "
+                                   "every element is pushed again and a cycle is walked for ever")
+        return (False, f"elements are added to {S} but never tested against it before {v} is extended")
+    return (False, f"no visited set: {v} is extended by successors of every popped element, so a cycle in the walked relation never drains it")
+
+
 def definite_problem(fn: Func, loop: ast.While):
     """Definite termination defects (used when no variant was found):
     'runaway'   the only progress towards the exit is conditional while another variable is stepped unconditionally
@@ -238,6 +307,9 @@ def definite_problem(fn: Func, loop: ast.While):
     hdr = g.node_of(loop)
     inside = _inside(loop)
     conj = _conjuncts(loop.test)
+    uw = getattr(loop, "_unbounded_worklist", None)
+    if uw is not None:
+        return ("unbounded work list", uw[1])
     # runaway
     for c in conj:
         if isinstance(c, ast.Compare) and len(c.ops) == 1 and isinstance(c.ops[0], (ast.Lt, ast.LtE, ast.Gt, ast.GtE)) \
